@@ -3,7 +3,9 @@
 mod c01;
 mod c02;
 mod c03;
+mod c04;
 mod c06;
+mod c17;
 mod mutate;
 mod family;
 
@@ -38,9 +40,19 @@ fn main() {
             let subs = c03::subs(&run);
             run.go(subs)
         },
+        "C04" => {
+            let run = Run::new(args, "model_checking");
+            let subs = c04::subs(&run);
+            run.go(subs)
+        },
         "C06" => {
             let run = Run::new(args, "exploration");
             let subs = c06::subs(&run);
+            run.go(subs)
+        },
+        "C17" => {
+            let run = Run::new(args, "exploration");
+            let subs = c17::subs(&run);
             run.go(subs)
         },
         other => kit::engine::die(&format!("stark binary does not serve {other}")),
